@@ -75,9 +75,29 @@ theorem finish_direct (c : Cfg) (ar aq : Nat) (s : S) (b : Base c ar aq s) (hrun
       simp only [Bool.not_eq_true] at how
       exact tail_direct c ar aq s b hrun hcl how h3 h6 hpd hsr hpass hheld hlc hresp hur hpt hgt hrst
 
+/-- the same for a two-way request whose retry state may still hold a slot (the pending reply of `TerminateStream`):
+`processError` gives the slot back before dropping the retry state -/
+theorem finish_direct_gen (c : Cfg) (ar aq : Nat) (s : S) (b : Base c ar aq s) (hrun : s.running = true) (hcl : s.cleaned = false)
+    (how : c.oneway = false)
+    (h3 : K3 s) (h6 : K6 s) (hpd : s.procDone = false) (hsr : s.setupRetry = false) (hdir : s.direct = true)
+    (hur : s.upReset = false) (hpass : s.pass = 0) (hlc : liveCount s.streams = 0)
+    (hresp : s.resp.isSome = true) (hpt : s.perTry = false) (hgt : s.global = false) (hrst : s.respStarted = false)
+    (hph : s.phase ≠ .UpFilter) :
+    Inv c ar aq (finishPhase c s) := by
+  rw [finishPhase_eq, processError_spec]
+  simp only [hcl, hur, Bool.false_eq_true, if_false]
+  unfold peTail
+  by_cases hd : s.downReset = true
+  · rw [if_pos hd]
+    exact tail_down c ar aq s b hcl hd (fun _ => hlc)
+  · rw [if_neg hd, if_pos hdir]
+    simp only []
+    rw [if_neg (by simp [how]), if_pos hph]
+    exact tail_direct_gen c ar aq s b hrun hcl how h3 h6 hpd hsr hpass hlc hresp hur hpt hgt hrst
+
 /-- the end of a phase whose body kept the invariant (and is not the one-way clean phase) -/
 theorem finish_inv (c : Cfg) (ar aq : Nat) (s : S) (h : Inv c ar aq s) (hrun : s.running = true)
-    (hph : s.phase = .Oneway → c.oneway = false)
+    (hnw : s.phase ≠ .WaitNotify) (hph : s.phase = .Oneway → c.oneway = false)
     (hadv : s.upReset = false → s.downReset = false → Inv c ar aq { s with phase := s.phase.next }) :
     Inv c ar aq (finishPhase c s) := by
   have hcl : s.cleaned = false := by
@@ -89,7 +109,8 @@ theorem finish_inv (c : Cfg) (ar aq : Nat) (s : S) (h : Inv c ar aq s) (hrun : s
     cases hp : s.procDone with
     | false => rfl
     | true => have := h.k5 hp; rw [hcl] at this; cases this
-  obtain ⟨hsr, hdir⟩ := h.k7 hcl
+  have hsr := (h.k7 hcl).1
+  have hdir : s.direct = false := not_direct_of_phase h.k7 hcl hnw
   -- a pending upstream reset can only be seen while forwarding
   have hfwd : s.upReset = true → fwdPhase s.phase = true := by
     intro hur
@@ -124,7 +145,11 @@ theorem finish_inv (c : Cfg) (ar aq : Nat) (s : S) (h : Inv c ar aq s) (hrun : s
     obtain ⟨hup, hrs⟩ := hmain hur
     refine ⟨hup, hrs, h.k23 hcl (Or.inl hur), ?_, ?_⟩
     · intro hp; rw [hp] at hf; simp [fwdPhase] at hf
-    · intro hq; exact h.k24 hcl how hq hrs
+    · intro hq
+      rcases h.k24 hcl how hq hrs with hh | hh | hh
+      · exact Or.inl hh
+      · exact Or.inr hh
+      · rw [hdir] at hh; cases hh
   · exact hadv
 
 end MosnVerif.Model.Downstream
